@@ -216,7 +216,23 @@ def load_known():
     return json.load(open(p)).get('findings', [])
 
 
-def match_known(known, pid, case_name, label, source='symbolic', detail=''):
+def _values_match(spec, values):
+    """optional 'values' of a known finding: {input name: [value, tolerance]} - every listed input must be present and within tolerance"""
+    if not spec:
+        return True
+    for name, (val, tol) in spec.items():
+        try:
+            from fractions import Fraction
+            q = values.get(name)
+            x = float(Fraction(q)) if isinstance(q, str) and '/' in q else float(q)
+        except Exception:
+            return False
+        if abs(x - float(val)) > float(tol):
+            return False
+    return True
+
+
+def match_known(known, pid, case_name, label, source='symbolic', detail='', values=None):
     """a known finding is identified by property + case (regex) + obligation label (regex) + where it was observed
     (source: 'symbolic' = solver counterexample replayed, 'sample' = concrete float sample on the real library) and
     optionally a regex on the failure detail; anything else is still reported"""
@@ -227,6 +243,8 @@ def match_known(known, pid, case_name, label, source='symbolic', detail=''):
             continue
         if re.fullmatch(k['case'], case_name) and re.fullmatch(k['label'], label):
             if k.get('detail') and not re.search(k['detail'], detail or ''):
+                continue
+            if not _values_match(k.get('values'), values or {}):
                 continue
             return k
     return None
@@ -322,7 +340,7 @@ def main(argv=None):
                 rec = dict(case=r['name'], label=o['label'], model=o['model'], detail=o.get('detail'),
                            path_conditions=o.get('path_conditions'), replay_status=status, replay_failures=fails)
                 if status == 'reproduced':
-                    k = match_known(known, pid, r['name'], o['label'], 'symbolic', json.dumps(fails))
+                    k = match_known(known, pid, r['name'], o['label'], 'symbolic', json.dumps(fails), o.get('model') or {})
                     if k is not None:
                         known_hits.append((k, rec))
                     else:
@@ -356,7 +374,7 @@ def main(argv=None):
                     lab = rec['failures'][0]['label'] if rec.get('failures') else 'concrete sample'
                     v = dict(case=rec['case'], label=lab, model=rec.get('values', {}), detail='random concrete sample',
                              path_conditions=None, replay_status='reproduced', replay_failures=rec.get('failures'))
-                    k = match_known(known, pid, rec['case'], lab, 'sample', json.dumps(rec.get('failures')))
+                    k = match_known(known, pid, rec['case'], lab, 'sample', json.dumps(rec.get('failures')), rec.get('values') or {})
                     if k is not None:
                         known_hits.append((k, v))
                     else:
